@@ -62,12 +62,16 @@ def check(prop, modname, tier, seed):
         for v in r['violations']:
             byclass.setdefault((v['clause'], v['klass']), []).append(v)
     nviol = 0
+    printed = set()
     for (clause, klass), vs in byclass.items():
         v = vs[0]
         if klass in listed:
-            still, text = mod.replay(listed[klass]['witness'])
-            if still:
-                rep.known('%s [%s] (%d cases in this run)' % (listed[klass]['what'], listed[klass]['id'], len(vs)))
+            if listed[klass]['id'] not in printed:
+                printed.add(listed[klass]['id'])
+                still, text = mod.replay(listed[klass]['witness'])
+                n = sum(len(x) for (c2, k2), x in byclass.items() if k2 == klass)
+                if still or n:
+                    rep.known('%s [%s] (%d cases in this run)' % (listed[klass]['what'], listed[klass]['id'], n))
             continue
         still, text = mod.replay(v['witness'])
         name = '%s[%s]' % (clause, klass)
@@ -79,7 +83,7 @@ def check(prop, modname, tier, seed):
         nviol += 1
     # a listed finding whose class produced no violation in this run but whose stored witness still fails
     for klass, f in listed.items():
-        if not any(k == klass for (_, k) in byclass):
+        if not any(k == klass for (_, k) in byclass) and f['id'] not in printed:
             try:
                 still, text = mod.replay(f['witness'])
             except Exception:
